@@ -25,6 +25,7 @@ import (
 	"os/exec"
 	"path/filepath"
 	"reflect"
+	"runtime"
 	"sort"
 	"strconv"
 	"strings"
@@ -639,7 +640,20 @@ func TestVerifC14sSubjectsChild(t *testing.T) {
 		finish("server did not start: " + err.Error())
 		return
 	}
-	defer c.Cleanup()
+	defer func() {
+		// Stopping is not what is judged here (C18): bounded, and when it does
+		// not finish the goroutines are kept for diagnosis.
+		done := make(chan struct{})
+		go func() { c.Cleanup(); close(done) }()
+		select {
+		case <-done:
+		case <-time.After(20 * time.Second):
+			buf := make([]byte, 1<<22)
+			os.WriteFile(spec.Out+".stop-hung-goroutines.txt", buf[:runtime.Stack(buf, true)], 0644)
+			os.RemoveAll(c.Dir)
+			os.Exit(0)
+		}
+	}()
 	for _, cr := range []*client.CreateStreamRequest{
 		{Subject: "c14s.one", Name: c14sOne, ReplicationFactor: 1, Partitions: 1},
 		{Subject: "c14s.two", Name: c14sTwo, ReplicationFactor: 1, Partitions: 2},
@@ -892,7 +906,7 @@ func TestVerifC14sSubjectsChild(t *testing.T) {
 			return
 		}
 		x.sub, x.cancel = sub, cancel
-		defer cancel()
+		defer func() { sub.Close(); cancel() }()
 	}
 	judge := func(x *part, e c14sExpect, got c14Stored, where string, off int64) {
 		if e.Fence != "" {
@@ -1091,16 +1105,24 @@ func TestVerifC14Subjects(t *testing.T) {
 		timedOut := ctx.Err() != nil
 		cancel()
 		os.WriteFile(base+".output.txt", outb.Bytes(), 0644)
+		// what was sent is taken from the journal, so that the messages a child
+		// handled before it died are counted too
+		if jl, jerr := os.ReadFile(spec.Log); jerr == nil {
+			for _, ln := range strings.Split(string(jl), "\n") {
+				fs := strings.Fields(ln)
+				if len(fs) >= 4 && fs[1] == "X" {
+					if j, cerr := strconv.Atoi(fs[0]); cerr == nil && j >= 0 && j < len(items) {
+						evals++
+						sigs[items[j].key()] = struct{}{}
+						rep.Count("journaled_"+items[j].Kind, 1)
+					}
+				}
+			}
+		}
 		var r c14RawResult
 		if raw, rerr := os.ReadFile(spec.Out); rerr == nil && json.Unmarshal(raw, &r) == nil && r.Done {
 			for k, v := range r.Counts {
 				rep.Count(k, v)
-				if strings.HasPrefix(k, "sent_") {
-					evals += v
-				}
-			}
-			for _, s := range r.Sigs {
-				sigs[s] = struct{}{}
 			}
 			for _, v := range r.Viols {
 				rep.Violation(v.FP, v.What, v.Replay)
@@ -1137,8 +1159,6 @@ func TestVerifC14Subjects(t *testing.T) {
 			break
 		}
 		it := items[idx]
-		evals++
-		sigs[it.key()] = struct{}{}
 		rep.Violation("C14:subjects:crash:"+it.key(), fmt.Sprintf("the server process died after a well-formed %s envelope arrived on its %s subject with %s (%s): %s [first repository frame: %s]",
 			c14sTypeName(it.Type), it.Kind, it.Class, it.Value, cl, frame),
 			map[string]any{"item": idx, "subject_class": it.Kind, "target": it.Target, "message_type": c14sTypeName(it.Type), "field_class": it.Class, "field_value": it.Value,
